@@ -740,6 +740,7 @@ func runC08(c *Ctx) {
 	ruleSelect(c)
 	ruleConstruct(c)
 	ruleAgree(c)
+	ruleGeneratorFixed(c, "AGREE")
 }
 
 // C08.SELECT
